@@ -86,6 +86,7 @@ func jwtTimestamps(which int) {
 		opts.FixedNow = time.Unix(now.s, now.n)
 	} else {
 		// the validator reads the clock: the model's clock variables
+		verifrt.NativeSkip("the system clock cannot be set natively")
 		now = inst{verifrt.Int64("clock.sec"), verifrt.Int64("clock.nsec")}
 	}
 	v, err := NewValidator(opts)
